@@ -18,11 +18,23 @@ from . import joseops as J
 from . import refimpl as R
 from . import keys as K
 
-ALGS = [("HS256", "oct256"), ("HS384", "oct384"), ("HS512", "oct512"), ("RS256", "RSA2048"), ("RS384", "RSA2048"), ("RS512", "RSA2048"),
-        ("PS256", "RSA2048"), ("PS384", "RSA2048"), ("PS512", "RSA2048"), ("ES256", "EC:P-256"), ("ES384", "EC:P-384"),
+ALGS = [("HS256", "oct256"), ("HS384", "oct384"), ("HS512", "oct512"), ("RS256", "RSA2048"), ("RS384", "RSA2048"), ("RS512", "RSA2050"),
+        ("PS256", "RSA2048"), ("PS384", "RSA2050"), ("PS512", "RSA2048"), ("ES256", "EC:P-256"), ("ES384", "EC:P-384"),
         ("ES512", "EC:P-521"), ("ES256K", "EC:secp256k1"), ("EdDSA", "OKP:Ed25519"), ("EdDSA", "OKP:Ed448")]
 OTHER = {"HS256": "HS384", "HS384": "HS512", "HS512": "HS256", "RS256": "PS256", "RS384": "RS512", "RS512": "PS512", "PS256": "RS256",
          "PS384": "PS512", "PS512": "RS512", "ES256": "ES384", "ES384": "ES256", "ES512": "ES256", "ES256K": "ES256", "EdDSA": "HS256"}
+
+
+def _sign_on_own_curve(alg, jwk, msg: bytes) -> bytes:
+    """ECDSA with the hash of `alg` but on the curve of the (unsuitable) key: R||S at that curve's coordinate length"""
+    from cryptography.hazmat.primitives.asymmetric import ec
+    from cryptography.hazmat.primitives.asymmetric.utils import decode_dss_signature
+    from cryptography.hazmat.primitives import hashes
+    key = R.jwk_to_native(jwk, True)
+    h = {"ES256": hashes.SHA256, "ES384": hashes.SHA384, "ES512": hashes.SHA512, "ES256K": hashes.SHA256}[alg]
+    r, s_ = decode_dss_signature(key.sign(msg, ec.ECDSA(h())))
+    size = R.EC_CURVES[jwk["crv"]][1]
+    return r.to_bytes(size, "big") + s_.to_bytes(size, "big")
 
 
 class Material:
@@ -32,6 +44,9 @@ class Material:
         self.alg, self.kind, self.raw, self.jwt = alg, kind, raw, jwt
         self.k1 = K.get(kind, 0)
         self.k2 = K.get(kind, 1)
+        # K3: a key that does not fit the algorithm - for ECDSA a key on another curve (else simply a third key)
+        other_curve = {"ES256": "EC:P-384", "ES384": "EC:P-256", "ES512": "EC:P-256", "ES256K": "EC:P-256"}.get(alg)
+        self.k3 = K.get(other_curve, 0) if other_curve else R.gen_like(self.k1) if self.k1["kty"] in ("EC", "OKP") else self.k2
         extra = {"b64": False, "crit": ["b64"]} if raw else {}
         if jwt:
             self.P = {1: b'{"sub":"one","n":1}', 2: b'{"sub":"two","n":2}'}
@@ -41,9 +56,20 @@ class Material:
             self.P = {1: b"payload one \x00\xff.", 2: b"payload two \x01\xfe."}
         self.Hd = {1: {"alg": alg, "cty": "one", **extra}, 2: {"alg": alg, "cty": "two", **extra}}
         self.H = {i: R.jdump(self.Hd[i]) for i in (1, 2)}
-        self.R1 = json.dumps(self.Hd[1], separators=(" , ", " : ")).encode()
         self.text = {i: (self.P[i] if raw else R.b64e(self.P[i])) for i in (1, 2)}
         self.S = {i: R.jws_sign(alg, self.k1, R.b64e(self.H[i]) + b"." + self.text[i]) for i in (1, 2)}
+        msg1 = R.b64e(self.H[1]) + b"." + self.text[1]
+        self.S3 = _sign_on_own_curve(alg, self.k3, msg1) if other_curve else (R.jws_sign(alg, self.k3, msg1) if self.k3 is not self.k2 else self.S[2])
+        if alg[:2] in ("RS", "PS"):
+            # an RSA signature is an octet string as long as the modulus; about one in 256 starts with a zero octet, which a
+            # sloppy integer conversion would tolerate losing: token one is searched for until its signature starts that way
+            for n in range(1, 4000):
+                if self.S[1][0] == 0:
+                    break
+                self.Hd[1]["cty"] = "one-%d" % n
+                self.H[1] = R.jdump(self.Hd[1])
+                self.S[1] = R.jws_sign(alg, self.k1, R.b64e(self.H[1]) + b"." + self.text[1])
+        self.R1 = json.dumps(self.Hd[1], separators=(" , ", " : ")).encode()
 
     # ---- concrete forms; v = variant number
     def hseg(self, h, v):
@@ -60,8 +86,11 @@ class Material:
         s1 = self.S[1]
         if s == "S1": return s1
         if s == "S2": return self.S[2]
+        if s == "S3": return self.S3
         if s == "empty": return b""
-        if s == "trunc": return s1[:len(s1) - 1 - (v % max(1, len(s1) - 1))] if v else s1[:-1]
+        if s == "trunc":
+            if v % 3 == 2: return s1[1 + (v // 3) % 2:]                       # octets lost at the front (leading zero octets, if any)
+            return s1[:len(s1) - 1 - (v % max(1, len(s1) - 1))] if v else s1[:-1]
         if s == "ext":
             # extension at the end, in front, or - both halves of an R||S pair zero-padded at their most significant end,
             # which leaves the two integers as they were (fixed-length encodings must still refuse it)
@@ -125,7 +154,7 @@ def assemble(sc, m: Material, v: int):
 def verify(sc, m: Material, tok):
     """-> ("ok", payload bytes, protected header dict of the first signature) | ("reject", reason)"""
     from joserfc import jws, jwt, rfc7797
-    kj = m.k1 if sc["key"] == "K1" else m.k2
+    kj = {"K1": m.k1, "K2": m.k2, "K3": m.k3}[sc["key"]]
     key = J.jkey(J.pub(kj))
     algs = [m.alg]
     if any(e["u"] == "alg_other" for e in sc["es"]):
@@ -160,6 +189,11 @@ def run_batch(args):
     for si, sc in enumerate(scenarios):
         m = material(alg, kind, sc["raw"], sc["ep"] == "jwt")
         exp_ok = sc["verdict"] == "ok"
+        uses3 = sc["key"] == "K3" or any(e["s"] == "S3" for e in sc["es"])
+        if uses3 and (not alg.startswith("ES") or any(e["u"] == "alg_other" for e in sc["es"])):
+            # "a key that does not fit the algorithm" exists for ECDSA (another curve); an unprotected alg naming the algorithm
+            # the key does fit makes the token an authentic one of that algorithm: outside this symbol's meaning
+            continue
         if sweep and len(sc["edits"]) == 1 and sc["edits"][0][0] in ("hdr", "sig", "text") and sc["edits"][0][-1] in ("X", "junk", "trunc", "raw:PX"):
             # thorough: every bit of the decoded segment / every truncation length
             kindv = sc["edits"][0][-1]
@@ -202,7 +236,7 @@ def load_scenarios(ctx: Ctx):
     rs = ctx.tlc_many([("Jws", "Jws_FALSE", {"timeout": 900}), ("Jws", "Jws_TRUE", {"timeout": 900})])
     ctx.tlc_many([("Jws", "Jws_dev_" + d, {"timeout": 600, "expect_violation": True})
                   for d in ("OobNotVerified", "EmptyListVerifies", "B64FromUnprotected", "SigningInputRebuilt", "FalseNotRaised", "AnySigLength",
-                            "UnprotectedAlgTrusted", "OnlyFirstSignatureChecked")], par=8)
+                            "UnprotectedAlgTrusted", "OnlyFirstSignatureChecked", "UnsuitableKeyVerifies")], par=9)
     scs, seen = [], set()
     for r in rs:
         for c in r.cases:
